@@ -791,6 +791,21 @@ class Parser:
         This handles binary operators, conditional, sequence, and assignment
         starting from an already-parsed left operand.
         """
+        left = self._continue_assignment_expression(left, exclude_in)
+
+        # Then sequence (comma)
+        if self._check(TokenType.COMMA):
+            expressions = [left]
+            while self._match(TokenType.COMMA):
+                expressions.append(self._parse_assignment_expression(exclude_in))
+            left = SequenceExpression(expressions)
+
+        return left
+
+    def _continue_assignment_expression(
+        self, left: Node, exclude_in: bool = False
+    ) -> Node:
+        """Like _continue_parsing_expression, but stops before a comma."""
         # First apply binary operators
         left = self._continue_binary_expression(left, 0, exclude_in)
 
@@ -820,13 +835,6 @@ class Parser:
             op = self._advance().value
             right = self._parse_assignment_expression(exclude_in)
             left = AssignmentExpression(op, left, right)
-
-        # Then sequence (comma)
-        if self._check(TokenType.COMMA):
-            expressions = [left]
-            while self._match(TokenType.COMMA):
-                expressions.append(self._parse_assignment_expression(exclude_in))
-            left = SequenceExpression(expressions)
 
         return left
 
@@ -1164,6 +1172,11 @@ class Parser:
                 # Move up a level
                 current_depth -= 1
                 if current_depth >= 0:
+                    # The inner literal may be only the start of the parent's
+                    # element: [[1, 2].length], [[] .concat(x)], [[1] + 1]
+                    array_expr = self._continue_assignment_expression(
+                        self._parse_postfix_suffixes(array_expr)
+                    )
                     # Add this array as an element to the parent
                     array_stack[current_depth].append(array_expr)
                 else:
@@ -1194,6 +1207,9 @@ class Parser:
                         array_expr = ArrayExpression(array_stack[current_depth])
                         current_depth -= 1
                         if current_depth >= 0:
+                            array_expr = self._continue_assignment_expression(
+                                self._parse_postfix_suffixes(array_expr)
+                            )
                             array_stack[current_depth].append(array_expr)
                         else:
                             return array_expr
